@@ -131,7 +131,10 @@ def check_case(case):
                     if list(pt) != centre:
                         raise Violation("centre", "post-schedule pull returned %r, domain centre is %r" % (pt, centre), t)
                     exhausted = True
-                    lp_at_exhaustion = list(s.algo.get_last_point())
+                    try:
+                        lp_at_exhaustion = list(s.algo.get_last_point())
+                    except Exception as e:  # noqa: BLE001
+                        return Outcome(aborted="last-point-exception:" + type(e).__name__, classes=classes, rounds=t - 1)
                 if not exhausted or cell is not root:
                     if id(cell) in evaluated:
                         raise Violation("evaluate-once", "search cell %s evaluated twice" % lab(cell), t)
@@ -146,7 +149,10 @@ def check_case(case):
                     by_depth.setdefault(cell.get_depth(), []).append(cell)
             if exhausted:
                 classes.append("reached-exhaustion")
-                lp = list(s.algo.get_last_point())
+                try:
+                    lp = list(s.algo.get_last_point())
+                except Exception as e:  # noqa: BLE001
+                    return Outcome(aborted="last-point-exception:" + type(e).__name__, classes=classes, rounds=T)
                 if lp != lp_at_exhaustion:
                     raise Violation("recommendation-stable", "get_last_point changed after exhaustion: %r -> %r" % (lp_at_exhaustion, lp), T)
             if rich:
